@@ -30,14 +30,15 @@ CONSTANTS Methods,     \* set of [name, params (sequence of parameter kinds), va
 VARIABLES call, outcome
 vars == <<call, outcome>>
 
-Shapes == {"null", "int", "float", "string", "bool", "array", "object"}
+Shapes == {"null", "int", "float", "string", "bool", "array", "object", "arraynull"}     \* arraynull: an array with a null element
 
 ArgOK(shape, kind) ==
     CASE kind = "any" -> TRUE
       [] kind \in {"int64", "int"} -> shape = "int"
       [] kind = "float64" -> shape \in {"int", "float"}
       [] kind = "string" -> shape = "string"
-      [] kind = "slice" -> shape \in {"array", "null"}
+      [] kind = "slice" -> shape \in {"array", "arraynull", "null"}
+      [] kind = "typedslice" -> shape \in {"array", "arraynull", "null"}     \* whether elements convert is left open: see Outcome
       [] kind = "map" -> shape \in {"object", "null"}
 
 ParamAt(m, i) == IF m.variadic /\ i >= Len(m.params) THEN m.params[Len(m.params)] ELSE m.params[i]
@@ -52,7 +53,8 @@ Outcome(c) ==
     IF c.form = "field" THEN "table"
     ELSE IF ~c.m.allowed THEN "error"
     ELSE IF ~ArityOK(c.m, c.args) \/ ~ArgsOK(c.m, c.args) THEN "error"
-    ELSE IF c.m.fragile /\ \E i \in 1..Len(c.args) : c.args[i] \in {"array", "object"} THEN "error-after-invoke"
+    ELSE IF \E i \in 1..Len(c.args) : ParamAt(c.m, i) = "typedslice" /\ c.args[i] \in {"array", "arraynull"} THEN "either"   \* element conversion: accepted or refused, never a crash
+    ELSE IF c.m.fragile /\ \E i \in 1..Len(c.args) : c.args[i] \in {"array", "object", "arraynull"} THEN "error-after-invoke"
     ELSE "invoked"
 
 Calls == [m : Methods, spelling : Spellings, form : Forms, args : ArgVectors]
@@ -63,10 +65,10 @@ Next == Decide
 Spec == Init /\ [][Next]_vars
 
 \* only allow-listed operations are ever invoked, in no spelling and through no call form
-OnlyAllowed == outcome \in {"invoked", "error-after-invoke"} => call.m.allowed /\ call.form # "field"
+OnlyAllowed == outcome \in {"invoked", "error-after-invoke", "either"} => call.m.allowed /\ call.form # "field"
 \* the decision does not depend on spelling or call form (other than field access)
 SpellingBlind == outcome # "pending" =>
     \A s \in Spellings, f \in Forms \ {"field"} :
         call.form # "field" => Outcome([call EXCEPT !.spelling = s, !.form = f]) = outcome
-Total == outcome # "pending" => outcome \in {"invoked", "error", "table", "error-after-invoke"}
+Total == outcome # "pending" => outcome \in {"invoked", "error", "table", "error-after-invoke", "either"}
 =============================================================================
